@@ -188,7 +188,11 @@ pub fn run_c15(cfg: &RunCfg, trace: bool) -> RunOut {
             }
             let _ = out_equiv;
         }
-        // snapshots: sync vs async A vs async B
+        // snapshots: sync vs async A vs async B (not after pure observers: they cannot change state,
+        // and C08 judges observers separately; saves half of the async snapshot cost)
+        if i > 0 && cfg.ops[i - 1].is_observer() && i < cfg.ops.len() {
+            continue;
+        }
         let ss = cx.snap(0, false, false);
         let uni = cx.universe[0].clone();
         let s1 = match asnapshot(&a1, &uni) {
